@@ -14,8 +14,8 @@ RULE = ("EXHAUSTIVE: every else-chain of 1..3 links (thorough: ..4) over {if, un
         "every assignment of condition values from a set with each truthiness class (false, null, missing, 0, '', [], {}, "
         "true, 1, 'x', [0], {k:0}, -0.0, 5e-324, 1.5); every link kind x truthiness class under condition keys that begin like a literal and "
         "continue with another symbol character (true-color, null:obj, 2-factor, 1a ...), at the block head and in an else link; plus random nested chains (depth ≤ 4) in every scope kind from the "
-        "AST generator; each branch writes a distinct marker; the family of the Lean theorems C06.if_block_renders_by_truthiness / if_else_block_renders_one_branch (any text, the block, any text; every truthiness class; oracle = the theorems' closed form, exact); oracle = reference renderer (first link whose condition holds, "
-        "else the final else, else nothing); includeZero variants; non-trivial = some branch rendered; distinct by "
+        "AST generator; each branch writes a distinct marker; the family of the Lean theorems C06.if_block_renders_by_truthiness / if_else_block_renders_one_branch / unless_block_renders_by_falsiness / with_block_renders_by_truthiness (any text, the block, any text; every truthiness class; oracle = the theorems' closed form, exact); oracle = reference renderer (first link whose condition holds, "
+        "else the final else, else nothing); includeZero variants (the option written as a literal, read from the data, from @root, computed by a subexpression; true and false); non-trivial = some branch rendered; distinct by "
         "(chain shape, values)")
 DEFINITE_FLOOR = 0.8
 VALUES = [("false", False), ("null", None), ("missing", ref.MISSING), ("zero", 0), ("empty", ""), ("earr", []), ("eobj", {}),
@@ -78,6 +78,18 @@ def generate(rng, n, tier="quick"):
             case = session({}, [("main", src)], {"api": "render", "name": "main"}, data)
             case["id"] = "%s-z-%s-%s" % (ID, vn, neg)
             out.append((case, {"mode": "incz", "oracle": list(ref_outcome({"main": ast}, "main", data)), "shape": [vn, neg]}))
+            # the option's VALUE decides, however it is written: from the data, from @root, from a subexpression; and a falsy
+            # option value leaves 0 falsy
+            for sp, on in (("includeZero=zopt", True), ("includeZero=@root.zopt", True), ("includeZero=(eq 1 1)", True),
+                           ("includeZero=(not nope)", True), ("includeZero=off", False), ("includeZero=(eq 1 2)", False), ("includeZero=false", False)):
+                src2 = src.replace("includeZero=true", sp)
+                if src2 == src:
+                    continue
+                d2 = dict(data, zopt=True, off=False)
+                ast2 = [dict(ast[0], incz=on)]
+                case = session({}, [("main", src2)], {"api": "render", "name": "main"}, d2)
+                case["id"] = "%s-z-%s-%s-%s" % (ID, vn, neg, sp)
+                out.append((case, {"mode": "incz", "oracle": list(ref_outcome({"main": ast2}, "main", d2)), "shape": [vn, neg, sp]}))
     # condition keys that BEGIN like a literal (true / false / null / a number) and go on with another symbol character: the
     # whole word is a path, the condition is the value stored under it
     LOOKALIKE = ["true-color", "false-alarm", "null-count", "null:obj", "2-factor", "true\u00e9", "null$", "false_x", "nullable", "1a", "-1x",
@@ -115,10 +127,18 @@ def generate(rng, n, tier="quick"):
         r = rng.fork("thm%d" % k)
         L, R = thm_left(r), thm_right(r)
         vn, vv = r.pick([v for v in VALUES if v[0] != "missing"])
-        has_else = r.chance(0.5)
-        src = L + ("{{#if v}}A{{else}}B{{/if}}" if has_else else "{{#if v}}A{{/if}}") + R
+        has_else = r.chance(0.4)
         t = ref.truthy(vv, False)
-        exp = L + ("A" if t else ("B" if has_else else "")) + R
+        pick = r.pick(["if", "if", "unless", "with"])
+        if not has_else and pick == "unless":
+            src = L + "{{#unless v}}A{{/unless}}" + R
+            exp = L + ("" if t else "A") + R
+        elif not has_else and pick == "with":
+            src = L + "{{#with v}}A{{/with}}" + R
+            exp = L + ("A" if t else "") + R
+        else:
+            src = L + ("{{#if v}}A{{else}}B{{/if}}" if has_else else "{{#if v}}A{{/if}}") + R
+            exp = L + ("A" if t else ("B" if has_else else "")) + R
         case = session({}, [], {"api": "render_template", "src": src}, {"v": vv})
         case["id"] = "%s-thm%04d" % (ID, k)
         out.append((case, {"mode": "thm", "oracle": ["must", exp], "shape": [vn, has_else, L, R]}))
